@@ -354,7 +354,7 @@ func switchTo(me, n int) {
 //go:norace
 func step() {
 	R.st.Steps++
-	if R.st.Steps > int64(R.cfg.StepCap) || R.tape.S[KSched].Over {
+	if R.st.Steps > int64(R.cfg.StepCap) || R.tape.S[KSched].Over || R.tape.S[KPool].Over || R.tape.S[KMap].Over || R.tape.S[KAddr].Over || R.tape.S[KFault].Over {
 		fatal(VStepCap, "step cap exceeded")
 	}
 }
@@ -441,7 +441,7 @@ func taskExit(me int) {
 // while no task exists.
 func Begin(cfg Config) {
 	if cfg.StepCap == 0 {
-		cfg.StepCap = 200000
+		cfg.StepCap = 2000000
 	}
 	R.cfg = cfg
 	R.tape = cfg.Tape
